@@ -492,12 +492,56 @@ class SymInt(_Num):
 # -------------------------------------------------------------------------------------------------
 # format tokens
 
+PLAIN_SPECS = ("", "r", "s")
+
+
+def spec_kind(spec):
+    """'repr' (shortest round-trip, may use exponent), 'fixed' ([.N]f, never exponent) or 'other'."""
+    if spec in PLAIN_SPECS:
+        return "repr"
+    sp = spec
+    if sp and sp[-1] in "fF":
+        body = sp[:-1]
+        if body == "" or (body.startswith(".") and body[1:].isdigit()):
+            return "fixed"
+    return "other"
+
+
+def exp_range(t):
+    """CPython float_repr_style 'short': repr/str use exponent notation iff v != 0 and (|v| < 1e-4 or |v| >= 1e16)."""
+    a = z3.If(t >= 0, t, -t)
+    return z3.And(t != 0, z3.Or(a < z3.RealVal("1/10000"), a >= z3.RealVal("10000000000000000")))
+
+
+class FmtTok(str):
+    """Text CPython would produce for a symbolic real: a real `str` (marker) that additionally answers
+    `'e' in tok` / `'E' in tok` symbolically (exponent-range predicate of the repr contract)."""
+
+    def __new__(cls, tid, term, spec):
+        obj = str.__new__(cls, "%s%d%s" % (MARK, tid, MARK))
+        obj.term = term
+        obj.spec = spec
+        return obj
+
+    def __contains__(self, item):
+        if item in ("e", "E") and core.active():
+            if spec_kind(self.spec) == "repr":
+                # CPython writes the exponent marker in lower case
+                if item == "E":
+                    return False
+                return core.cur().decide(exp_range(self.term))
+            if spec_kind(self.spec) == "fixed":
+                return False
+            raise core.Unsupported("'e' in text formatted with spec %r" % self.spec)
+        return str.__contains__(self, item)
+
+
 def fmt_token(value, spec):
     ctx = core.cur()
     tid = len(ctx.fmt_table) + 1
     ctx.fmt_table[tid] = (value.t, spec)
     ctx.fmt_events.append((tid, value.t, spec, len(ctx.pc)))
-    return "%s%d%s" % (MARK, tid, MARK)
+    return FmtTok(tid, value.t, spec)
 
 
 def fresh_real(name, ctx=None, register=True):
